@@ -29,6 +29,14 @@ def step(w, prev, cur, op, res):
     f = O.check_no_cancelled_running(prev, cur)
     if f:
         return f
+    # jobs outside every cancelled subtree are unaffected: a job becomes Cancelled only if it was marked cancelled beforehand (its
+    # group or an ancestor cancelled, or its own flag set because a parent did not succeed)
+    for k, cj in cur.jobs.items():
+        pj = prev.jobs.get(k)
+        if pj is not None and cj['state'] == 'Cancelled' and pj['state'] != 'Cancelled' and not prev.marked_cancelled(pj) \
+                and not cur.marked_cancelled(cj):
+            return [('uncancelled-job-cancelled', 'jobs in sibling or ancestor groups are unaffected',
+                     f'job {k} went {pj["state"]} -> Cancelled although neither it nor any group above it is cancelled')]
     if res.get('skipped'):
         return []
     if kind in ANSWERED and not res.get('ok'):
